@@ -18,7 +18,7 @@ FUNCTIONS_ENCODED = ["PeerConnection.work_write_queue (cooperative transform)", 
 ASSUMPTIONS = ["threads are their body functions under a cooperative scheduler; preemption points before every statement that mentions state shared between the threads and inside read-modify-write assignments",
                "threading.Lock -> cooperative lock; Queue -> cooperative FIFO; select -> cooperative wait that reports the socket writable while the buffer is non-empty, the interrupt pipe after demand_attention and a timeout otherwise",
                "send() accepts 1..n bytes or fails once with a soft errno, as scripted by solver-chosen values"]
-BOUNDS = {"quick": "1 producer x 2 messages and 2 producers x 1 message (plus one unencodable message), first send accepts a symbolic 1..n bytes or fails softly, every placement of <= 2 preemptions with symbolic target thread",
+BOUNDS = {"quick": "1 producer x 2 messages and 2 producers x 1 message (plus one unencodable message: encoder raises / 16 MiB message), first send accepts a symbolic 1..n bytes or fails softly, every placement of <= 2 preemptions with symbolic target thread",
           "thorough": "3 messages, <= 3 preemptions"}
 OUTSIDE = ["4..6 messages", "3 producers", "several independent partial writes", "bytecode-level preemption", "hard socket errors (C14)"]
 
@@ -104,16 +104,29 @@ class BadMessage(Message):
         raise ValueError("cannot be encoded")
 
 
+HUGE = b"\x5a" * (1 << 24)          # one AVP payload of 16 MiB: every AVP valid, the message exceeds the 24-bit length field
+
+
 def _msgs(kinds):
     out = []
     for i, k in enumerate(kinds):
         m = BadMessage() if k == "bad" else Message()
         m.header.hop_by_hop_identifier = 0x0a0b0c00 + i
         m.header.command_code = 1000 + i
+        if k == "huge":
+            m.append_avp(Avp(0xf0000002, 0, HUGE))
         if k == "avp":
             m.append_avp(Avp(0xf0000001, 0, bytes([0x30 + i]) * 3))
         out.append(m)
     return out
+
+
+def _compact(data):
+    """long byte strings (the 16 MiB scenario) are compared by length, both ends and a checksum"""
+    if len(data) <= 4096:
+        return data
+    import zlib
+    return ("long", len(data), data[:64], data[-64:], zlib.crc32(data))
 
 
 def fifo(k1: int, sched: List[int], tgt: List[int]) -> bool:
@@ -203,17 +216,17 @@ def fifo(k1: int, sched: List[int], tgt: List[int]) -> bool:
             return 0
         threads = [producer(gi) for gi in range(len(groups))] + [writer(), io()]
         coop.run_choices(threads, choose, len(sched), max_steps=1500)
-        expected = b"".join(m.as_bytes() for m in put_order if not isinstance(m, BadMessage))
-        obs = (s.log, len(c.write_buffer), c.state, s2.log if s2 is not None else b"")
+        expected = b"".join(m.as_bytes() for m in put_order if not isinstance(m, BadMessage) and not any(len(a.payload) >= (1 << 24) - 32 for a in m.avps))
+        obs = (_compact(s.log), len(c.write_buffer), c.state, s2.log if s2 is not None else b"")
     except Exception as e:
         return hx.fail(inputs, "raised %s: %s" % (type(e).__name__, str(e)[:100]))
-    return hx.check(inputs, obs, (expected, 0, B.PEER_READY, second), "bytes handed to the transport != FIFO concatenation of the encodable queued messages, each once (per connection)")
+    return hx.check(inputs, obs, (_compact(expected), 0, B.PEER_READY, second), "bytes handed to the transport != FIFO concatenation of the encodable queued messages, each once (per connection)")
 
 
 def specs(tier, seed, carve):
     q = tier == "quick"
     out = []
-    scen = {"1x2": [["plain", "avp"]], "2x1": [["plain"], ["avp"]], "1x3bad": [["plain", "bad", "avp"]]}
+    scen = {"1x2": [["plain", "avp"]], "2x1": [["plain"], ["avp"]], "1x3bad": [["plain", "bad", "avp"]], "1x3huge": [["plain", "huge", "avp"]]}
     if not q:
         scen["2x2bad"] = [["plain", "bad"], ["avp", "plain"]]
         scen["1x3"] = [["plain", "avp", "plain"]]
